@@ -464,7 +464,7 @@ Lemma compression_switch :
   (forall n s, comp_active (fst (fire_timed n s)) = comp_active s) /\
   (forall n s, comp_active (fst (conn_established n s)) = comp_active s) /\
   (forall n s, comp_active (fst (fst (connect_next n s))) = comp_active s) /\
-  (forall s, comp_active (fst (conn_disconnect s)) = comp_active s).
+  (forall s, comp_active (fst (NegModel.conn_disconnect s)) = comp_active s).
 Proof.
   split; [intros; apply dispatch_turned_on|].
   split; [intros k n e s Hk; apply (CA_call_handler_other k n e s s Hk (CA_refl s))|].
